@@ -66,14 +66,16 @@ impl<'ctx> Visitor<'ctx> for ComplexityCalculate<'ctx, '_> {
                 children_complex,
             ) {
                 Ok(n) => {
-                    *self.complexity_stack.last_mut().unwrap() += n;
+                    let total = self.complexity_stack.last_mut().unwrap();
+                    *total = total.saturating_add(n);
                 }
                 Err(err) => ctx.report_error(vec![field.pos], err.to_string()),
             }
             return;
         }
 
-        *self.complexity_stack.last_mut().unwrap() += 1 + children_complex;
+        let total = self.complexity_stack.last_mut().unwrap();
+        *total = total.saturating_add(children_complex).saturating_add(1);
     }
 }
 
